@@ -49,7 +49,7 @@ type wstep struct {
 }
 
 type wcase struct {
-	ID   string  `json:"id"`
+	ID    string  `json:"id"`
 	Mode  string  `json:"mode"`
 	Outer string  `json:"outer"` // tblank: the mangler list of the transforming source around the Blank
 	Hist  []wstep `json:"hist"`
@@ -344,15 +344,24 @@ func runWrapCase(c wcase) (mis []wmis) {
 		}
 		opctx, opcancel := context.WithTimeout(ctx, opTimeout)
 		switch h.Op {
-		case "setstatic":
-			in := &winner{a: h.A, s: h.S, via: h.Via}
-			opErr = blank.SetSource(opctx, wsource(in, h.Wrap))
-		case "setfailing":
-			opErr = blank.SetSource(opctx, &winner{failValue: true})
-		case "setwatcher":
-			in := &winner{a: h.A, s: h.S, via: h.Via, watcher: true, failWatch: !h.Flag}
-			opErr = blank.SetSource(opctx, wsource(in, h.Wrap))
-			if opErr == nil {
+		case "setstatic", "setfailing", "setwatcher":
+			in := &winner{a: h.A, s: h.S, via: h.Via, watcher: h.Op == "setwatcher", failWatch: h.Op == "setwatcher" && !h.Flag,
+				failValue: h.Op == "setfailing"}
+			src := wsource(in, h.Wrap)
+			if h.Op == "setfailing" {
+				src = in
+			}
+			// SetSource is bounded by the context it is given (C07): it must be back soon after that context ended
+			ret := make(chan error, 1)
+			go func() { ret <- blank.SetSource(opctx, src) }()
+			select {
+			case opErr = <-ret:
+			case <-time.After(opTimeout + 10*time.Second):
+				mis = append(mis, wmis{step, "ctx", fmt.Sprintf("%s: SetSource had not returned 10 s after its context ended (context of %v)", h.Op, opTimeout)})
+				opcancel()
+				return
+			}
+			if opErr == nil && h.Op == "setwatcher" {
 				cur = in
 			}
 		case "report", "reportblocking":
